@@ -315,6 +315,23 @@ func genSizeText(r *rt.Rand) string {
 	return sb.String()
 }
 
+func init() {
+	texts := []string{"0B", "0", "0 YiB", "1ZB", "15EiB", "16EiB", "18446744073709551615", "1 000 kB", "1kb"}
+	coldCases["C08"] = coldGeneric([]func(){
+		func() { _, _ = size.New(0, "ZB") },
+		func() { _, _ = size.New(uint8(0), "") },
+		func() { _, _ = size.Bytes[float32](0) },
+		func() { _, _ = size.DefaultParser("0ZiB", 0) },
+		func() { _, _ = size.New(1.5, "kB") },
+		func() { _ = constraint.Max[int8]() },
+		func() {},
+	}, func(w *rt.W, k int) {
+		c08Text(w, texts[k])
+		c08New(w, uint64(k), ref.AllUnits[k%len(ref.AllUnits)])
+		c08BytesAll(w, uint64(1)<<uint(k*7))
+	}, len(texts))
+}
+
 func runC08(c *rt.Ctx) {
 	c.SetRule("for each of the 18 units and the empty unit: every value within +-1000 of floor((2^64-1)/multiplier) and of 0, all 2^k and 10^k, seeded values, through New[uint64] and the text parser; one mathematical value offered through all 12 numeric kinds and 12 derived types (negative, fractional, NaN, +-Inf, -0, 2^24+-1, 2^53+-1, 2^63, 2^64, kind maxima); " +
 		"grammar-generated texts with every separator kind/count and 0-3 surrounding spaces, negative/fraction/exponent/mangled-unit texts; Bytes[N] for 18 types at 0, each kind's max and max+1, float mantissa boundaries, 2^64-2048..2^64-1 and seeded values; constraint.Max/Min/SizeBits/IsSigned/IsFloat against math constants. " +
@@ -491,6 +508,8 @@ func runC08(c *rt.Ctx) {
 		size.MaxInputLength = old
 		c.Require("long-text-with-limit-raised", 30000)
 	}
+
+	coldStart(c, "C08", 14)
 
 	nBytes := c.Pick(200000, 20000000)
 	c.Parallel("bytes", 0, func(w *rt.W) {
